@@ -7,7 +7,10 @@ import (
 	"io"
 	"strings"
 
+	"mvdan.cc/sh/v3/interp"
+
 	"github.com/go-task/task/v3/errors"
+	"github.com/go-task/task/v3/internal/execext"
 	"github.com/go-task/task/v3/internal/output"
 	zz "github.com/go-task/task/v3/internal/zzsym"
 	"github.com/go-task/task/v3/taskfile/ast"
@@ -391,6 +394,29 @@ func zzCheckErrorClass(g *zzGraph, tr []zz.Event, err error) {
 	}
 }
 
+// zzCheckIgnoredCall: a task with ignore_error whose nested call fails because of a
+// failing command somewhere below it continues with its next command, and the
+// invocation succeeds if nothing else fails.
+func zzCheckIgnoredCall(g *zzGraph, tr []zz.Event, err error) {
+	r := g.task("R")
+	if r == nil || !r.IgnoreError || len(r.Cmds) < 2 || r.Cmds[0].Call == "" {
+		return
+	}
+	failures, rootFailed := 0, false
+	for _, ev := range tr {
+		if ev.Kind == "F" && ev.Val != 0 {
+			failures++
+			if zzTaskOf(ev.ID) == "R" {
+				rootFailed = true
+			}
+		}
+	}
+	if failures == 1 && !rootFailed {
+		zz.Assert(zzCount(tr, "S", zzProbeID("R", 1)) == 1, "task-ignore_error-covers-a-failing-nested-call")
+		zz.Assert(err == nil, "task-ignore_error-covers-a-failing-nested-call/result")
+	}
+}
+
 func zzShapeC03(n int) (*zzGraph, []string) {
 	probe := zzCmd{}
 	switch n {
@@ -414,6 +440,12 @@ func zzShapeC03(n int) (*zzGraph, []string) {
 			{Name: "P", IgnoreError: true, Cmds: []zzCmd{{Call: "S"}}},
 			{Name: "S", Run: "once", Cmds: []zzCmd{probe}},
 		}}, []string{"R"}
+	case 5: // failure in a dependency of a task reached through a nested call
+		return &zzGraph{Tasks: []zzTask{
+			{Name: "R", IgnoreError: zz.Bool("ignore.R"), Cmds: []zzCmd{{Call: "P"}, probe}},
+			{Name: "P", Deps: []string{"D"}, Cmds: []zzCmd{probe}},
+			{Name: "D", Cmds: []zzCmd{probe}},
+		}}, []string{"R"}
 	case 3: // failure in a shared run-once task with a concurrent sibling
 		return &zzGraph{Tasks: []zzTask{
 			{Name: "R", Deps: []string{"A", "B"}, Cmds: []zzCmd{probe}},
@@ -429,6 +461,7 @@ func ZZ_C03_FailStop() {
 	g, roots := zzShapeC03(zz.Param("shape", 0))
 	tf := g.build(zzFailingDefault(g))
 	tr, err := zzExec(g, tf, zzRunOpts{}, roots...)
+	zzCheckIgnoredCall(g, tr, err)
 	zzCheckFailStop(g, tr, err)
 	zzCheckCallers(g, tr)
 	zzCheckC01(g, tr)
@@ -530,13 +563,15 @@ func zzMaxRunning(tr []zz.Event) int {
 
 func ZZ_C07_Concurrency() {
 	g, roots, par := zzShape(zz.Param("shape", 1))
-	tf := g.build(func(string) bool { return false })
+	var failing func(string) bool = func(string) bool { return false }
+	if zz.Param("failing", 0) > 0 {
+		failing = zzFailingDefault(g)
+	}
+	tf := g.build(failing)
 	n := zz.Choose("concurrency", zz.Param("maxconc", 2)+1)
 	tr, err := zzExec(g, tf, zzRunOpts{Concurrency: n, Parallel: par}, roots...)
-	zz.Assert(err == nil, "run-succeeds-when-nothing-fails")
-	for _, r := range roots {
-		zz.Assert(zzDoneOK(g, tr, r, len(tr), 0), "all-required-work-done/"+r)
-	}
+	// (a state with unfinished goroutines and nothing enabled is reported by the engine as a deadlock)
+	zzCheckAllWorkDone(g, tr, err, roots)
 	if n >= 1 {
 		zz.Assert(zzMaxRunning(tr) <= n, "at-most-N-tasks-execute-commands")
 	}
@@ -765,6 +800,78 @@ func ZZ_C13_Guards() {
 		}
 	default:
 		zz.Assert(started && err == nil, "passing-guards-let-the-task-run")
+	}
+	if zz.Twin() {
+		zz.Assert(false, "twin")
+	}
+	zz.Reach("end")
+}
+
+// ---- C17 through runCommand: the output wrapper is closed with the command's real outcome -----
+
+type zzCollect struct{ writes []string }
+
+func (c *zzCollect) Write(p []byte) (int, error) {
+	c.writes = append(c.writes, string(p))
+	return len(p), nil
+}
+
+// zzOutShell: a command "out <id> <status>" writes one line and exits with status.
+func zzOutShell(ctx context.Context, opts *execext.RunCommandOptions) error {
+	f := strings.Fields(opts.Command)
+	if len(f) != 3 || f[0] != "out" {
+		return nil
+	}
+	if opts.Stdout != nil {
+		_, _ = io.WriteString(opts.Stdout, "o:"+f[1]+"\n")
+	}
+	if f[2] != "0" {
+		return interp.NewExitStatus(3)
+	}
+	return nil
+}
+
+// ZZ_C17_RunCommand: with output: group the block of a command appears iff it wrote
+// something and (not error_only or it failed) - also when the failure is ignored.
+func ZZ_C17_RunCommand() {
+	errorOnly := zz.Bool("error_only")
+	failB := zz.Bool("b_fails")
+	ignoreB := zz.Bool("b_ignore_error")
+	taskIgnore := zz.Bool("task_ignore_error")
+	text := func(id string, fail bool) string {
+		code := 0
+		if fail {
+			code = 3
+		}
+		if zz.Native() {
+			return fmt.Sprintf("printf 'o:%s\\n'; exit %d", id, code)
+		}
+		return fmt.Sprintf("out %s %d", id, code)
+	}
+	tf := &ast.Taskfile{Vars: ast.NewVars(), Env: ast.NewVars(), Tasks: ast.NewTasks(), Run: "always", Method: "checksum"}
+	t := &ast.Task{Task: "t", IgnoreError: taskIgnore, Location: &ast.Location{Taskfile: "/d/f.yml"}, Vars: ast.NewVars(), Env: ast.NewVars(),
+		Cmds: []*ast.Cmd{{Cmd: text("a", false)}, {Cmd: text("b", failB), IgnoreError: ignoreB}, {Cmd: text("c", false)}}}
+	tf.Tasks.Set("t", t)
+	zzRun = zzOutShell
+	zzEnviron = []string{"HOME=/h"}
+	sink := &zzCollect{}
+	e := &Executor{Taskfile: tf, Stdout: sink, Stderr: io.Discard, Stdin: strings.NewReader(""), Silent: true,
+		Output: output.Group{Begin: "<", End: ">", ErrorOnly: errorOnly}}
+	e.Logger = zzQuietLogger()
+	e.Compiler = &Compiler{Dir: "", TaskfileEnv: tf.Env, TaskfileVars: tf.Vars, Logger: e.Logger}
+	e.setupConcurrencyState()
+	err := e.Run(context.Background(), &Call{Task: "t"})
+	all := strings.Join(sink.writes, "")
+	block := func(id string) string { return "<\no:" + id + "\n>\n" }
+	cRuns := !failB || ignoreB || taskIgnore
+	zz.Assert((err == nil) == cRuns, "run-result")
+	for _, c := range []struct {
+		id     string
+		ran    bool
+		failed bool
+	}{{"a", true, false}, {"b", true, failB}, {"c", cRuns, false}} {
+		want := c.ran && (!errorOnly || c.failed)
+		zz.Assert(strings.Contains(all, block(c.id)) == want, "group/block-shown-iff-output-and-(not-error_only-or-failed)/"+c.id)
 	}
 	if zz.Twin() {
 		zz.Assert(false, "twin")
